@@ -328,6 +328,23 @@ def falsifier(chk, seed, n):
             t1 = (f1[0] + off[0], f1[1] + off[1])
             t2 = (t1[0] + lam * dv[0], t1[1] + lam * dv[1])
             pts = [f1, f2, t1, t2]
+        elif kind < 0.7:
+            # one segment ALMOST axis-parallel: its two end points differ by a few units in the last place (0.3 vs 0.1 + 0.2,
+            # a projected coordinate with rounding noise) in one coordinate, the other segment is long in that coordinate and
+            # its line meets the line of the first inside or beyond it.  Formulas that divide by that tiny extent are unstable.
+            x3 = rnd.choice([0.3, 2.0, 10.1, 621000.3, -47.7])
+            x4 = x3 + rnd.choice([1, 2, 5, 50, 1000]) * math.ulp(x3) * rnd.choice([1, -1])
+            y3 = rnd.randint(-40, 40) / 10
+            y4 = y3 + rnd.choice([0.5, 1.0, 2.5, -1.5])
+            a_, b_ = rnd.uniform(0.5, 50), rnd.uniform(0.5, 50)
+            yc = rnd.choice([y3 - 1.5, y3 + 0.25 * (y4 - y3), y4 + 0.5, y4 + 4.0])       # where f crosses the line of t
+            sl = rnd.uniform(-0.5, 0.5)
+            f1, f2 = (x3 - a_, yc - sl * a_), (x3 + b_, yc + sl * b_)
+            t1, t2 = (x3, y3), (x4, y4)
+            sw_ = rnd.random() < 0.5
+            pts = [f1, f2, t1, t2] if rnd.random() < 0.5 else [t1, t2, f1, f2]
+            if sw_:
+                pts = [(p_[1], p_[0]) for p_ in pts]
         else:
             s = 10 ** rnd.uniform(-3, 4)
             pts = [(rnd.uniform(-s, s), rnd.uniform(-s, s)) for _ in range(4)]
@@ -396,7 +413,7 @@ def falsifier(chk, seed, n):
     chk.bounded_suite('geometry-falsifier', len(seen) * 3, nontriv, [list(map(list, c)) for c in corpus[:2] + cases[:2]],
                       rule='segment pairs from the half-integer grid (parallel, collinear, touching, crossing, zero-length '
                            'occur by construction), parallel pairs with one-decimal coordinates (not exactly representable: cross product is rounding noise) '
-                           'and log-uniform random scales 1e-3..1e4, seeded by VERIF_SEED; each pair '
+                           'segments that are axis-parallel up to a few units in the last place crossed (or passed) by a long one, and log-uniform random scales 1e-3..1e4, seeded by VERIF_SEED; each pair '
                            'also gives one point-segment case, evaluated a second time with time stamps as third component of all three points; non-trivial = both segments have positive length; results compared '
                            'with an exact rational reference', bounds=f"{len(seen)} distinct segment pairs")
 
